@@ -3,7 +3,8 @@ import numpy
 import puan
 import puan.ndarray as pnd
 
-COEF_SETS = [[-1, 1], [-1, 0, 1], [-3, -2, -1, 0, 1, 2, 3, 5, 7], [-100, -1, 0, 1, 100], [-32767, -1, 0, 1, 32767, 65535]]
+COEF_SETS = [[-1, 1], [-1, 0, 1], [-3, -2, -1, 0, 1, 2, 3, 5, 7], [-100, -1, 0, 1, 100], [-32767, -1, 0, 1, 32767, 65535],
+             list(range(-130, 131)), [-49, 49, -75, 77, -91, 93, -98, 99, -103, 105, -107, 117, 0, 1]]
 INT16 = [(-32768, 32767), (0, 32767), (-32768, 0)]
 
 
@@ -54,7 +55,11 @@ def gen_poly(rng, max_rows=4, max_cols=4, allow_int16=True, small=False, narrow=
             r_[1 + j] = 0                                # zero column
     ids = rng.sample(["x", "y", "z", "w", "u", "v", "a b", "", "ä", "q,r"], n)
     idx = ["r%d" % i for i in range(m)] if rng.random() < 0.7 else None
+    if idx and m >= 2 and rng.random() < 0.2:
+        idx[rng.randrange(1, m)] = idx[0]            # two rows that stem from the same proposition carry the same index id
     case = {"M": rows, "ids": ids, "bounds": [list(b) for b in bounds], "index": idx}
+    if rng.random() < 0.2:
+        case["first_variable"] = rng.choice([["0", 0, 1], ["0", 0, 1], ["b", -5, 5]])     # column 0 need not carry the (1,1) support variable
     if narrow:
         mx = max(abs(v) for r_ in rows for v in r_) if rows else 0
         fits = [d for d, lim in (("int32", 2 ** 31), ("int16", 2 ** 15), ("int8", 2 ** 7)) if mx < lim]
@@ -65,13 +70,17 @@ def gen_poly(rng, max_rows=4, max_cols=4, allow_int16=True, small=False, narrow=
 
 def build_poly(case, cls=None):
     cls = cls or pnd.ge_polyhedron
-    variables = [puan.variable.support_vector_variable()] + [puan.variable(i, bounds=tuple(b)) for i, b in zip(case["ids"], case["bounds"])]
+    fv = case.get("first_variable")
+    first = puan.variable(fv[0], bounds=(fv[1], fv[2])) if fv else puan.variable.support_vector_variable()
+    variables = [first] + [puan.variable(i, bounds=tuple(b)) for i, b in zip(case["ids"], case["bounds"])]
     kw = {}
     if case.get("index"):
         kw["index"] = [puan.variable(i) for i in case["index"]]
     P = cls(numpy.array(case["M"], dtype=numpy.int64), variables=variables, **kw)
     if case.get("dtype"):
-        P = P.astype(getattr(numpy, case["dtype"]))
+        info = numpy.iinfo(getattr(numpy, case["dtype"]))
+        if all(info.min <= v <= info.max for r_ in case["M"] for v in r_):      # only when every entry fits (no wrap-around made by the harness)
+            P = P.astype(getattr(numpy, case["dtype"]))
     return P
 
 
